@@ -257,7 +257,8 @@ func drawWrites(rt *rapid.T, label string, total int) []int {
 			rest -= c
 		}
 	}
-	if rest > 0 || len(out) == 0 {
+	// an empty payload is sent either as one empty Write or as no Write call at all
+	if rest > 0 || (len(out) == 0 && rapid.Bool().Draw(rt, label+"-emptywrite")) {
 		out = append(out, rest)
 	}
 	return out
